@@ -8,7 +8,9 @@
 use std::io::{self, BufRead, BufWriter, Write};
 
 mod util;
+mod clock;
 mod conv;
+mod m_tcp;
 mod m_db;
 mod m_filter;
 
@@ -28,6 +30,7 @@ fn main() {
     let r = match args[1].as_str() {
         "filter" => m_filter::run(&mut input, &mut out, rest),
         "db" => m_db::run(&mut input, &mut out, rest),
+        "tcp" => m_tcp::run(&mut input, &mut out, rest),
         m => {
             eprintln!("unknown mode {m}");
             std::process::exit(2);
